@@ -6,7 +6,9 @@ use vrp_core::construction::heuristics::InsertionCost;
 use vrp_core::models::{Goal, GoalBuilder};
 use vrp_core::prelude::*;
 use vrp_core::rosomaxa::evolution::objectives::dominance_order;
+use vrp_core::rosomaxa::population::Alternative;
 use vrp_core::rosomaxa::prelude::HeuristicObjective;
+use vrp_core::rosomaxa::utils::RandomGen;
 
 struct VerifFitnessKey;
 
@@ -76,6 +78,119 @@ fn build_goal(layers: &[i64]) -> Goal {
     b.build().unwrap()
 }
 
+/// `Random` whose two answers used by `Alternative::maybe_new` are scripted: is_hit -> hit, uniform_int -> draw.
+struct ScriptedRandom {
+    hit: bool,
+    draw: i32,
+}
+impl Random for ScriptedRandom {
+    fn uniform_int(&self, min: i32, max: i32) -> i32 {
+        assert!(min <= self.draw && self.draw <= max, "scripted draw outside of the requested interval");
+        self.draw
+    }
+    fn uniform_real(&self, min: Float, _: Float) -> Float {
+        min
+    }
+    fn is_head_not_tails(&self) -> bool {
+        self.hit
+    }
+    fn is_hit(&self, _: Float) -> bool {
+        self.hit
+    }
+    fn weighted(&self, _: &[usize]) -> usize {
+        0
+    }
+    fn get_rng(&self) -> RandomGen {
+        RandomGen::new_repeatable()
+    }
+}
+
+struct NoConstraint;
+impl FeatureConstraint for NoConstraint {
+    fn evaluate(&self, _: &MoveContext<'_>) -> Option<ConstraintViolation> {
+        None
+    }
+}
+
+/// the numbers of Model/GoalCtx.v for the error messages of goal.rs / goal_reader.rs
+fn err_code(msg: &str) -> i64 {
+    let table = [
+        ("defined more than once", 1),
+        ("no objectives specified in the goal", 2),
+        ("cannot find a feature with given name", 3),
+        ("has no objective", 4),
+        ("nested composite objectives are not supported", 5),
+        ("weighted sum requires same amount of weights", 6),
+        ("missing goal of optimization", 8),
+        ("features with default id are not allowed", 9),
+        ("empty feature is not allowed", 10),
+    ];
+    table.iter().find(|(m, _)| msg.contains(m)).map(|(_, c)| *c).unwrap_or(99)
+}
+
+/// goal specification {"via": 0|1, "layers": [[kind, [idx..]], ..]}:
+/// via 0 = Goal::subset_of(features, names f<first idx>), via 1 = GoalBuilder (kind 0 add_single, kind 1 add_multi with the
+/// comparator goal_reader.rs installs)
+fn goal_of(features: &[Feature], spec: &Value) -> GenericResult<Goal> {
+    let layers = spec["layers"].as_array().unwrap();
+    if i64_of(&spec["via"]) == 0 {
+        let names: Vec<String> = layers.iter().map(|l| format!("f{}", i64_of(&l[1][0]))).collect();
+        return Goal::subset_of(features, &names);
+    }
+    let mut b = GoalBuilder::default();
+    for l in layers {
+        let idxs = i64s_of(&l[1]);
+        if i64_of(&l[0]) == 0 {
+            b = b.add_single(Arc::new(IdxObjective(idxs[0] as usize)));
+        } else {
+            let os: Vec<Arc<dyn FeatureObjective>> =
+                idxs.iter().map(|&k| Arc::new(IdxObjective(k as usize)) as Arc<dyn FeatureObjective>).collect();
+            b = b.add_multi(
+                &os,
+                |os, a, b| dominance_order(a, b, os.iter().map(|o| |a, b| o.fitness(a).total_cmp(&o.fitness(b)))),
+                |os, m| os.iter().map(|o| o.estimate(m)).sum(),
+            );
+        }
+    }
+    b.build()
+}
+
+fn gctx_of(case: &Value) -> GenericResult<GoalContext> {
+    let flags = i64s_of(&case["flags"]);
+    let features: Vec<Feature> = flags
+        .iter()
+        .enumerate()
+        .map(|(i, &f)| {
+            let b = FeatureBuilder::default().with_name(&format!("f{}", i));
+            if f != 0 { b.with_objective(IdxObjective(i)) } else { b.with_constraint(NoConstraint) }.build().unwrap()
+        })
+        .collect();
+    let mut b = GoalContextBuilder::with_features(&features)?;
+    if !case["main"].is_null() {
+        b = b.set_main_goal(goal_of(&features, &case["main"])?);
+    }
+    for alt in case["alts"].as_array().unwrap() {
+        b = b.add_alternative_goal(goal_of(&features, alt)?);
+    }
+    b.build()
+}
+
+/// follows a path of `Alternative::maybe_new` calls ([[hit, draw], ..]) from the built context
+fn follow(gc: &GoalContext, path: &Value) -> GoalContext {
+    path.as_array().unwrap().iter().fold(gc.clone(), |c, step| {
+        c.maybe_new(&ScriptedRandom { hit: i64_of(&step[0]) != 0, draw: i64_of(&step[1]) as i32 })
+    })
+}
+
+/// [[ab, ba, aa], fitness(a) bits, fitness(b) bits] of one context
+fn observe(gc: &GoalContext, a: &InsertionContext, b: &InsertionContext) -> Vec<Value> {
+    vec![
+        json!([ord_of(gc.total_order(a, b)), ord_of(gc.total_order(b, a)), ord_of(gc.total_order(a, a))]),
+        Value::Array(gc.fitness(a).map(bits_of).collect()),
+        Value::Array(gc.fitness(b).map(bits_of).collect()),
+    ]
+}
+
 pub fn run_case(case: &Value) -> Value {
     let op = case["op"].as_str().unwrap();
     match op {
@@ -125,6 +240,16 @@ pub fn run_case(case: &Value) -> Value {
                 json!({"ab": ab, "ba": ba, "aa": aa, "fit_a": fit_a, "fit_b": fit_b, "ab_ctx": ab_ctx})
             })
         }
+        "gctx" => match gctx_of(case) {
+            Err(e) => json!({"obs": [[-1, err_code(&e.to_string())]], "err": e.to_string()}),
+            Ok(gc) => PROBLEM.with(|p| {
+                let a = empty_ctx(p, f64s_of(&case["a"]));
+                let b = empty_ctx(p, f64s_of(&case["b"]));
+                let obs: Vec<Value> =
+                    case["paths"].as_array().unwrap().iter().flat_map(|path| observe(&follow(&gc, path), &a, &b)).collect();
+                json!({"obs": obs})
+            }),
+        },
         "dominance" => {
             // orders: array of -1/0/1
             let orders = i64s_of(&case["orders"]);
